@@ -440,6 +440,12 @@ class _Frame:
                 return a & b if isinstance(op, ast.BitAnd) else a | b if isinstance(op, ast.BitOr) else a ^ b
             except Exception as e:
                 raise AnalysisError(f"npsym: `{norm(node)[:70] if node is not None else op}`: {type(e).__name__}: {e}")
+        isb = lambda v: (isinstance(v, np.ndarray) and v.dtype == bool) or isinstance(v, (bool, np.bool_))
+        if isb(a) and isb(b):
+            if isinstance(op, ast.Mult):
+                return np.logical_and(a, b)          # torch keeps bool * bool boolean
+            if isinstance(op, ast.Add):
+                return np.logical_or(a, b)
         a, b = self.I._obj(a), self.I._obj(b)
         try:
             if isinstance(op, ast.Add):
